@@ -213,7 +213,8 @@ Inductive event :=
 | EvDisconnect (p : pid)
 | EvLastState (p : pid) (h : vhdr) (fresh : bool) (cts : list (pid * content))
 | EvProof (p : pid) (msg_last : vhdr) (proof_empty : bool) (hs : list vhdr) (mmr : N) (cts : list (pid * content))
-| EvTick (cts : list (pid * content)).
+| EvTick (cts : list (pid * content))
+| EvRestart.   (* process restart: every in-memory peer state is gone, the store stays *)
 
 Definition ban (sy : sys) (p : pid) (code : N) : res (sys * list action) := Ok (sy, [A_ban p code]).
 
@@ -246,7 +247,10 @@ Definition on_last_state (sy : sys) (now : N) (p : pid) (h : vhdr) (fresh : bool
             if ptd <? ntd then
               match get_ps s with
               | Some ps =>
-                  let* par := is_parent_of (ps_last ps) h in
+                  let* par0 := is_parent_of (ps_last ps) h in
+                  (* fix commit: the child's chain root must end at the proved parent with its total difficulty *)
+                  let* partd := vtd (ps_last ps) in
+                  let par := par0 && (v_rend h =? v_num (ps_last ps)) && (v_ptd h =? partd) in
                   if par then
                     let child := new_child ps h (last_n_cfg sy) in
                     let st := sstore sy in
@@ -354,6 +358,7 @@ Definition step (sy : sys) (now tau : N) (ev : event) : res (sys * list action) 
   | EvLastState p h fresh cts => on_last_state sy now p h fresh cts
   | EvProof p ml pe hs mmr cts => on_proof sy now tau p ml pe hs mmr cts
   | EvTick cts => Ok (on_tick sy now cts)
+  | EvRestart => Ok (mkSys [] (sstore sy) (last_n_cfg sy), [])
   end.
 
 (* run a timed history; the clock of each event is part of the input *)
